@@ -433,6 +433,19 @@ func c17R8(c *Ctx, r *Report) {
 			}
 			n++
 			ptr := al.Elts[1]
+			userArray := true
+			if ao := objOf(info, al.Elts[0]); ao != nil && len(defs[ao]) > 0 {
+				userArray = false
+				for _, d := range defs[ao] {
+					if dc, isCall := ast.Unparen(d).(*ast.CallExpr); isCall {
+						if f := callee(info, dc); f != nil && f.Name() != "nextValueID" {
+							userArray = true
+						}
+					} else {
+						userArray = true
+					}
+				}
+			}
 			fresh := func(e ast.Expr) bool {
 				cl, ok := ast.Unparen(e).(*ast.CallExpr)
 				if !ok {
@@ -482,8 +495,10 @@ func c17R8(c *Ctx, r *Report) {
 					if fresh(d) {
 						continue
 					}
-					// valuePtr := value  where value itself comes from the coercion (union elements)
-					if o2 := objOf(info, d); o2 != nil {
+					// valuePtr := value  where value itself comes from the coercion (union elements): an existing
+					// address is acceptable only when the destination array was created right here, i.e. it is
+					// not a value lowered from a user expression that the element could point into
+					if o2 := objOf(info, d); o2 != nil && !userArray {
 						inner := false
 						for _, d2 := range defs[o2] {
 							if fresh(d2) {
